@@ -8,8 +8,7 @@ Contract clauses evaluated (on the REAL `tsdate.inside_outside`, public API, obs
   posterior-equals-exact-marginal[logarithmic]     marginal of the discretised model (row by row, entry by entry)
   likelihood-equals-normalising-constant[linear]   returned likelihood == Z          (linear space)
   likelihood-equals-normalising-constant[logarithmic]  returned likelihood == log Z  (logarithmic space)
-  known-first-timepoint-above-zero-...             (separate space, see below) grids whose first timepoint is > 0,
-                                                   judged against the model with the samples at their real time 0
+  known-...                                        two isolated conditions, see "Known findings" below
 
 The discretised model (written from the property statement, no tsdate code):  every non-sample node u takes
 a grid index i_u in 0..K-1; an assignment has weight
@@ -19,32 +18,51 @@ sample child sits at grid time t[0] (= 0 for every grid of the main clauses); `e
 duration as in tsdate's documented "error factor"; `prior[u]` is the un-normalised row of the prior object
 handed to tsdate; m_pc = number of mutations whose node is c (mutations above the root belong to no edge).
 Z = sum of all weights; marginal(u)[i] = (sum of weights with i_u = i) / Z.
-The oracle enumerates ALL K^(#non-sample nodes) assignments as a dense numpy tensor (no message passing, no
-triangular packing); every `SELFCHECK_EVERY`-th case is re-enumerated assignment-by-assignment with itertools
+The oracle enumerates ALL K^(#non-sample nodes) assignments as a dense numpy tensor with one cell per assignment
+holding its log-weight (so no single assignment underflows; sums are shift-by-max log-sum-exp over the cells; no
+message passing, no triangular packing, own Poisson formula); every `SELFCHECK_EVERY`-th case is re-enumerated assignment-by-assignment with itertools
 in 40-digit mpmath arithmetic, and a disagreement of the two oracles raises (checker bug, not a violation).
 
 Input space / bound
   trees     all rooted leaf-labelled trees (binary and polytomies) from rt.inputs.all_tree_shapes
             quick: all 31 trees with 2-4 leaves + 30 seeded 5-leaf trees;  thorough: all 267 trees with 2-5 leaves
   mutations per-edge count patterns: all 0; all 1; seeded draws from {0,1,2,3,6} (+1 mutation above the root);
-            seeded sparse draws from {0,0,0,1,4}   (quick 3 patterns/tree, thorough 4)
+            seeded sparse draws from {0,0,0,1,4}   (quick: 3 patterns/tree; thorough: 6 = all 0, all 1, two draws
+            of each seeded kind)
   grids     A [0,100,200,300,400]  B [0,1,10,100,1000]  C [0,30,30.5,120,121,500]  D [0,150] (2 points)
             Q = tsdate's own quantile grid (timepoints=3)
   priors    tsdate.build_prior_grid lognorm / gamma (population_size 100), and a synthetic random prior with
-            positive mass at time 0 and exact zeros elsewhere (rows written straight into a NodeTimeValues)
+            positive mass at time 0 and one exact zero per row (rows written straight into a NodeTimeValues)
   options   probability_space x {linear, logarithmic} (always both); outside_standardize, cache_inside,
-            eps in {1e-8 (default), 1e-2, 0}, (sequence_length, mutation_rate) in {(10,1e-3),(3.5,4e-3)} rotated
-            deterministically over the cases.  eps = 0 cases whose model has Z == 0 (infeasible) are skipped.
-  quick: every tree x 3 patterns x 5 (grid, prior) combinations (rotating);  thorough: every tree x 4 patterns x
+            eps in {1e-8 (default, weight 2), 1e-2, 0}, (sequence_length, mutation_rate) in {(10,1e-3),(3.5,4e-3)}
+            drawn per case from default_rng(seed).  eps = 0 cases whose model has Z == 0 (infeasible) are skipped.
+  quick: every tree x 3 patterns x 5 (grid, prior) combinations (rotating);  thorough: every tree x 6 patterns x
   all 15 (grid, prior) combinations.  `exhaustive` is True for the thorough tier (all trees of the stated sizes x
   the fixed finite lists above), False for quick (5-leaf trees sampled).
 
 Tolerances
-  posterior entries:  |obs - exp| <= 1e-9 * exp + 1e-280.  tsdate's sum-product and the dense enumeration are
-  algebraically identical sums of positive products, so 1e-9 relative is ~1e6 ulps of slack; the absolute term
-  only forgives entries in the subnormal range where neither side has relative precision.
+  posterior entries:  |obs - exp| <= 1e-9 * exp + atol,  atol = 1e-280 in logarithmic and 1e-200 in linear space.
+  tsdate's sum-product and the enumeration are algebraically identical sums of positive products, so 1e-9
+  relative is ~1e6 ulps of slack (largest error observed: 2.3e-13).  The absolute term only exempts entries that
+  double precision cannot carry: below 1e-280 neither side has relative precision (subnormals); in linear space
+  products of several edge likelihoods of size Poisson(6; eps*mu*span) ~ 1e-63 underflow to 0 before they are
+  renormalised (the documented limitation of linear space, and C12's explicit precondition), which zeroes
+  posterior entries below ~1e-200 (1 of 15 471 thorough inputs: exact 3.0e-263, linear 0.0, logarithmic exact).
+  Every entry >= 1e-200 is compared relatively in both spaces.
   likelihood: linear  |obs - Z| <= 1e-9 Z ;  logarithmic |obs - log Z| <= 1e-9 (absolute on the log = relative
-  1e-9 on Z).
+  1e-9 on Z).  Inputs with Z < 1e-250 are skipped (none occurs in the stated space).
+
+Known findings isolated in their own clauses (the generic clauses stay strict on every other input)
+  known-node-posterior-entirely-at-first-timepoint-gives-nan   inputs where the EXACT marginal of some node has no
+      mass beyond the first timepoint (possible only with a user prior that has mass at t[0]; arises with eps = 0,
+      or with a prior row that is a point mass at t[0]): NodeTimeValues.standardize() divides each posterior row
+      by its maximum over columns 1.., i.e. by 0, the posterior becomes NaN and inside_outside raises
+      tskit.LibraryError "Times must be finite".  A few such inputs are constructed on purpose (prior kind
+      "synthetic-pointmass0") so that the clause is populated in every run.
+  known-first-timepoint-above-zero-sample-edges-measured-from-first-timepoint   grids whose first timepoint is > 0
+      (accepted by build_prior_grid), judged against the model with the samples at their real time 0: tsdate
+      measures sample edges from t[0] (timediff = timepoints - timepoints[0] + eps); its output equals the model
+      with the samples at t[0] (recorded per case as equals_model_with_samples_at_first_timepoint).
 
 NOT covered: trees with more than 5 leaves; multi-tree inputs (inside-outside is not exact there); grids with
 more than ~10 points; mutation counts above 6; underflowing linear-space runs; recombination clock; the
@@ -61,7 +79,7 @@ from rt import bounded_api, inputs
 
 SELFCHECK_EVERY = 97
 RTOL = 1e-9
-ATOL_SUBNORMAL = 1e-280
+ATOL = {"logarithmic": 1e-280, "linear": 1e-200}
 
 GRIDS = {
     "A": np.array([0.0, 100.0, 200.0, 300.0, 400.0]),
@@ -189,6 +207,7 @@ def mutation_pattern(kind, ts_plain, rng):
         return {}
     if kind == "ones":
         return {u: 1 for u in children}
+    kind = kind.rstrip("2")                 # "mixed2"/"sparse2": a second independent draw of the same kind
     if kind == "mixed":
         pat = {u: int(rng.choice([0, 1, 2, 3, 6])) for u in children}
         pat[root] = 1                       # above the root: belongs to no edge, must be ignored
@@ -233,12 +252,12 @@ def posterior_matrix(fit, K):
 
 
 # ------------------------------------------------------------------------------- the check
-def rows_close(obs, exp):
+def rows_close(obs, exp, space):
     obs = np.asarray(obs, float)
     exp = np.asarray(exp, float)
     if not np.all(np.isfinite(obs)):
         return False
-    return bool(np.all(np.abs(obs - exp) <= RTOL * np.abs(exp) + ATOL_SUBNORMAL))
+    return bool(np.all(np.abs(obs - exp) <= RTOL * np.abs(exp) + ATOL[space]))
 
 
 KNOWN_NONZERO_START = "known-first-timepoint-above-zero-sample-edges-measured-from-first-timepoint"
@@ -307,7 +326,7 @@ def run_case(rep, state, shape, pattern_kind, muts, L, mu, grid_name, grid, prio
             for cl in sorted({clause_post, clause_lik}):
                 rep.case(cl, False, key=key, input=d, observed=err, expected=exp_all, nontrivial=nontrivial)
             continue
-        bad = [u for u in marg if not rows_close(post[u], marg[u])]
+        bad = [u for u in marg if not rows_close(post[u], marg[u], space)]
         samples_nan = all(np.all(np.isnan(post[int(s)])) for s in ts.samples())
         ok_post = not bad and samples_nan
         ok_lik = lik_close(lik, logZ, space)
@@ -316,7 +335,7 @@ def run_case(rep, state, shape, pattern_kind, muts, L, mu, grid_name, grid, prio
             # for the report: does the run instead agree with the model whose samples sit at t[0]?
             logZ1, marg1 = exact_model(ts, rows, t, mu, eps)
             obs_all["equals_model_with_samples_at_first_timepoint"] = bool(
-                all(rows_close(post[u], marg1[u]) for u in marg1) and lik_close(lik, logZ1, space))
+                all(rows_close(post[u], marg1[u], space) for u in marg1) and lik_close(lik, logZ1, space))
         if clause_post == clause_lik:
             rep.case(clause_post, ok_post and ok_lik, key=key, input=d, observed=obs_all, expected=exp_all,
                      nontrivial=nontrivial)
@@ -342,7 +361,8 @@ def run(req, rep):
         trees += five
     else:
         trees += [five[i] for i in sorted(rng.choice(len(five), size=30, replace=False))]
-    pattern_kinds = ["zeros", "ones", "mixed", "sparse"] if thorough else ["ones", "mixed", "sparse"]
+    pattern_kinds = (["zeros", "ones", "mixed", "sparse", "mixed2", "sparse2"] if thorough
+                     else ["ones", "mixed", "sparse"])
     combos = [(g, p) for g in GRIDS for p in PRIOR_KINDS]
     eps_choices = [1e-8, 1e-8, 1e-2, 0.0]
     rate_choices = [(10.0, 1e-3), (3.5, 4e-3)]
